@@ -70,7 +70,7 @@ STD_OPTIONS = {
     "training_config.noise_scale": [0.01],
     "training_config.noise_type": ["constant", "adaptive"],
     "training_config.clip_grad_norm": [None, 1.0],
-    "training_config.val_size": [0.2],
+    "training_config.val_size": [0.2, 0.0],
     "training_config.batch_size": [10, 5000],
     "training_config.use_dataloader": [True],
     "training_config.optimiser": ["adam", "sgd"],
@@ -152,6 +152,11 @@ INS_OPTIONS = {
     "save_log_q": [True],
     "flow_config.ftype": ["realnvp", "maf", "nsf"],
     "flow_config.linear_transform": ["permutation", "lu"],
+    "training_config.val_size": [0.2, 0.0],
+    "training_config.batch_size": [10, 5000],
+    "training_config.noise_type": ["constant"],
+    "training_config.clip_grad_norm": [None],
+    "training_config.optimiser": ["sgd"],
     "run.redraw_samples": [True],
     "run.posterior_sampling_method": ["rejection_sampling",
                                       "multinomial_resampling",
@@ -226,6 +231,12 @@ GROUPS = {
         "flow_config.batch_norm_within_layers", "flow_config.distribution",
         "flow_config.n_blocks", "reset_weights", "reset_permutations",
         "reset_flow"]),
+    # how a training is carried out
+    "optimisation": (False, [
+        "training_config.annealing", "training_config.noise_type",
+        "training_config.clip_grad_norm", "training_config.val_size",
+        "training_config.batch_size", "training_config.use_dataloader",
+        "training_config.optimiser"]),
     "levels": (True, [
         "threshold_method", "strict_threshold", "replace_all",
         "draw_constant", "draw_iid_live", "n_initial", "min_samples",
